@@ -5,6 +5,7 @@ import ast
 from ..affine import AffineEval, Inst, Lin, NotAffine, Record, as_lin, straight_body
 from ..analysis import PROPERTY_TEXT, path_text, self_attr
 from ..const import EnumVal
+from ..cfg import reachable_without_edges
 from ..index import AnalysisError, norm
 from ..report import rule
 from ..resolve import walk_own
@@ -301,21 +302,31 @@ def r05e(R):
     ok = False
     if tests:
         t = tests[0]
-        tr = cfg.reachable_from([m for m, lab in t.succs if lab is True], avoid=[t])
-        fa = [m for m, lab in t.succs if lab is False]
-        ok = any('Loader._load_routine' in A.callee_names(load, c)
-                 for n in tr[:2] for c in n.calls()) and any(
-            isinstance(c.func, ast.Attribute) and c.func.attr == 'append'
-            and self_attr(c.func.value) == '_main_segment'
-            for n in fa for c in n.calls())
+        # label of the edge taken when the op-code IS ROUTINE
+        is_label = isinstance(t.ast.ops[0], (ast.Is, ast.Eq))
+        lr_nodes = [n for n in cfg.nodes for c in n.calls()
+              if 'Loader._load_routine' in A.callee_names(load, c)]
+        ap_nodes = [n for n in cfg.nodes for c in n.calls()
+              if isinstance(c.func, ast.Attribute) and c.func.attr == 'append'
+              and self_attr(c.func.value) == '_main_segment']
+        wo_is = reachable_without_edges(cfg, cfg.entry, {(t.id, is_label)})
+        wo_not = reachable_without_edges(cfg, cfg.entry, {(t.id, not is_label)})
+        ok = bool(lr_nodes and ap_nodes) and all(n.id not in wo_is for n in lr_nodes) \
+            and all(n.id not in wo_not for n in ap_nodes)
     R.check(load, 'ROUTINE -> routine segment, else -> main segment', ok,
             'the segment split no longer keys on OpCode.ROUTINE')
     # _load_routine stops at END <same name>
     ok = False
+    # the local that holds the routine's name: bound to <instruction>.param0
+    name_vars = [norm(n.targets[0]) for n in walk_own(lr.node)
+                 if isinstance(n, ast.Assign) and isinstance(n.value, ast.Attribute)
+                 and n.value.attr == 'param0' and isinstance(n.targets[0], ast.Name)]
     for n in walk_own(lr.node):
         if isinstance(n, ast.While):
             t = norm(n.test)
-            ok = 'OpCode.END' in t and 'routine_name' in t
+            names = set(x.id for x in ast.walk(n.test) if isinstance(x, ast.Name))
+            ok = 'OpCode.END' in t and '.param0' in t and \
+                any(v in names for v in name_vars)
     R.check(lr, 'routine segment ends at END <routine name>', ok,
             'the end of a routine body is no longer recognised by END <name>')
 
